@@ -33,6 +33,7 @@ type Term struct {
 	a, b *Term
 	typ  types.Type
 	show string
+	ptrs []uint64 // instruction/block addresses embedded in the key (definition sites this term's meaning depends on)
 }
 
 func (t *Term) String() string {
@@ -89,9 +90,64 @@ func (tt *termTable) mk(kind, key string, a, b *Term, typ types.Type, show strin
 		return t
 	}
 	tt.n++
-	t := &Term{id: tt.n, key: k, kind: kind, a: a, b: b, typ: typ, show: show}
+	t := &Term{id: tt.n, key: k, kind: kind, a: a, b: b, typ: typ, show: show, ptrs: hexTokens(k)}
 	tt.byKey[k] = t
 	return t
+}
+
+// hexTokens extracts the 0x... addresses embedded in a term key (sorted, unique).
+func hexTokens(k string) []uint64 {
+	var out []uint64
+	for i := 0; i+2 < len(k); i++ {
+		if k[i] != '0' || k[i+1] != 'x' {
+			continue
+		}
+		j := i + 2
+		var v uint64
+		for j < len(k) {
+			c := k[j]
+			var d uint64
+			switch {
+			case c >= '0' && c <= '9':
+				d = uint64(c - '0')
+			case c >= 'a' && c <= 'f':
+				d = uint64(c-'a') + 10
+			default:
+				d = 16
+			}
+			if d == 16 {
+				break
+			}
+			v = v<<4 | d
+			j++
+		}
+		if j > i+2 {
+			dup := false
+			for _, o := range out {
+				if o == v {
+					dup = true
+				}
+			}
+			if !dup {
+				out = append(out, v)
+			}
+		}
+		i = j
+	}
+	return out
+}
+
+// touches: the term's key embeds one of the given addresses.
+func (t *Term) touches(set map[uint64]bool) bool {
+	if t == nil {
+		return false
+	}
+	for _, p := range t.ptrs {
+		if set[p] {
+			return true
+		}
+	}
+	return false
 }
 
 type vkey struct {
